@@ -142,6 +142,14 @@ func generate(r *simkit.Rand, prop, tier string) *simkit.Plan {
 			st.Fault = "put_error" // disk full from the n-th write of this Commit on
 			st.FaultAt = r.Intn(8)
 		}
+		if st.Fault == "get_error" && r.Chance(0.6) {
+			// a commit (collapses nodes below maxTrieLevelInMemory) and often a restart (everything collapsed) right
+			// before the faulty step, so that the step has disk reads that can fail
+			p.Steps = append(p.Steps, simkit.Step{Op: "commit"})
+			if r.Chance(0.7) {
+				p.Steps = append(p.Steps, simkit.Step{Op: "restart"})
+			}
+		}
 		p.Steps = append(p.Steps, st)
 	}
 	return p
